@@ -4,7 +4,7 @@ import "golang.org/x/tools/go/ssa"
 
 func init() {
 	register(&propDef{
-		ID: "C11",
+		ID:      "C11",
 		Explain: "Decision-table comparison on HandleMsg4: every abstract state reaching a send site has parse ok ∧ opcode = BOOTREQUEST ∧ reply built ∧ type ∈ {DISCOVER, REQUEST} ∧ resp ≠ nil, and every abstract exit that sends nothing has one of these false (V4.FILTER); the extracted request-type→reply-type map equals {DISCOVER→OFFER, REQUEST→ACK} and nobody else retypes replies (V4.TYPEMAP); the stub is NewReplyFromRequest(parsed datagram) and the codec fact that it echoes xid/htype/chaddr/flags/giaddr/options 82,61 is re-derived (V4.STUB); no first-party code stores identity fields of a DHCPv4 packet (V4.IDENTITY-RO); the packet serialised is the dispatch loop's exit value (V4.SENT-IS-CHAIN-RESULT). Constants are taken from the codec by value.",
 		Trusted: trustedBase,
 		Assume:  []string{"the codec's encoding of the reply is not verified", "third-party plugins are outside the analysed program"},
@@ -25,7 +25,7 @@ func init() {
 		},
 	})
 	register(&propDef{
-		ID: "C12",
+		ID:      "C12",
 		Explain: "Decision-table comparison on HandleMsg6: the (inner message type, rapid commit) → reply constructor map extracted from all abstract states equals the frozen RFC table (SOLICIT→ADVERTISE, SOLICIT+RapidCommit→REPLY, REQUEST/CONFIRM/RENEW/REBIND/RELEASE/INFORMATION-REQUEST→REPLY, everything else no constructor), constructors are applied to the decapsulated message (V6.TYPEMAP); a send is reached only with parse ok ∧ inner ok ∧ supported type ∧ reply built ∧ resp ≠ nil and every silent exit has one of them false (V6.FILTER); relayed ⇒ NewRelayReplFromRelayForw(received relay, chain result), direct ⇒ chain result unchanged (V6.RELAY); destination is the peer parameter (V6.DEST); the control message pins the bound, else the receiving interface exactly for link-local peers (V6.PIN).",
 		Trusted: trustedBase,
 		Assume:  []string{"per-layer mirroring of link/peer address and Interface-ID is NewRelayReplFromRelayForw's job (codec, trusted)", "transaction id / client id echo is NewReplyFromMessage's / NewAdvertiseFromSolicit's job (codec, trusted)"},
@@ -43,7 +43,7 @@ func init() {
 		},
 	})
 	register(&propDef{
-		ID: "C13",
+		ID:      "C13",
 		Explain: "Structural rules for the plugin chain: LoadPlugins' two loops range over conf.ServerK.Plugins under ServerK != nil, abort on registry miss / setup error / nil handler, skip nil SetupK, and append exactly one setup result per item in order (CHAIN.LOAD, checked per loop iteration on all abstract paths); config.parsePlugins appends one PluginConfig per list item (CHAIN.PARSE-ORDER); HandleMsg4/6 have one range loop over l.handlers calling h(request, running response) once, leaving on stop or exhaustion only, and what is sent is the loop's exit value guarded by resp != nil (CHAIN.DISPATCH / SENT); Start gives every listener the LoadPlugins result of its protocol (CHAIN.SHARED); every built-in handler returns nil only together with stop (CHAIN.RETNIL on every abstract return path).",
 		Trusted: trustedBase,
 		Assume:  []string{"the registry maps each name to the intended plugin (RegisterPlugin's map contents are run-time data)"},
@@ -72,7 +72,7 @@ func init() {
 		},
 	})
 	register(&propDef{
-		ID: "C14",
+		ID:      "C14",
 		Explain: "Decision-table comparison on the serverid handlers: every abstract exit of Handler6 is classified drop/accept and compared (three-valued) with the RFC 8415 §16 matrix over {inner error, Server-ID present, message type family, DUID equality}; accepts must apply WithServerID(v6ServerID) — re-derived to be an Update — to resp (SID.V6-MATRIX). Handler4's accept exits must establish siaddr ∈ {unset, 0, own} AND option 54 ∈ {absent, own}; drops must name another server (SID.V4-DROP); accepts set siaddr to a copy of v4ServerID and UpdateOption(54) (SID.V4-STAMP); identifiers are initialised on every successful setup path and v4ServerID is stored as To4() (SID.INIT).",
 		Trusted: trustedBase,
 		Assume:  []string{"DUID.Equal semantics (codec)"},
@@ -87,7 +87,7 @@ func init() {
 		},
 	})
 	register(&propDef{
-		ID: "C17",
+		ID:      "C17",
 		Explain: "Per option plugin, every emission site (Options.Update / UpdateOption / AddOption on resp) is an obligation: the option code is derived from the codec constructor / literal / plugin global and must be the code of the plugin's row in the frozen table (OPT.CODE-AGREE); the entitlement gate of the row must be true (three-valued, over the branch facts decided on the path) in every abstract state reaching the emission (OPT.GATE), and at every abstract exit an entitled client has received the option, with the specified stop flag and returned response (OPT.RETURNS); emissions are idempotent Updates or execute at most once per invocation (OPT.ONCE); the emitted value's canonical rendering mentions the plugin's configuration global (OPT.VALUE). The codec fact 'IsOptionRequested is true for an absent list' is re-derived; the ipv6only row therefore demands evidence that the list is present.",
 		Trusted: trustedBase,
 		Assume:  []string{"wire encoding of options (codec)", "value equality with the arguments beyond provenance is not decided"},
@@ -101,7 +101,7 @@ func init() {
 		},
 	})
 	register(&propDef{
-		ID: "C15",
+		ID:      "C15",
 		Explain: "Decision-table comparison on the tail of HandleMsg4: in every abstract state reaching a send site the destination (address expression, port constant, link-level flag) equals the RFC 2131 §4.1 row selected by giaddr / NAK / ciaddr / broadcast flag, every row is realised (ADDR.CASCADE); the control message is the bound interface, else the receiving one, exactly for broadcast / link-local / L2 destinations and nil otherwise (ADDR.PIN); sendEthernet builds dst MAC = chaddr, dst IP = yiaddr, src IP = siaddr, UDP 67→68 on the looked-up interface (ADDR.L2); listenN either remembers its interface or enables per-packet interface information on every success path (ADDR.LISTENER); the control message is never dereferenced while nil (NILPATH on HandleMsg4).",
 		Trusted: trustedBase,
 		Assume:  []string{"kernel routing and gopacket serialisation are not verified"},
